@@ -13,7 +13,11 @@ import (
 
 func builtinChecks(e *Engine, prop, tier string) []*groupResult {
 	gs := builtinChecksFor(e, prop, tier)
-	return append(gs, pureChecks(e, prop)...)
+	gs = append(gs, pureChecks(e, prop)...)
+	if e.only == "" || strings.Contains(e.only, "witness") {
+		gs = append(gs, witnessChecks(e, prop)...)
+	}
+	return gs
 }
 
 // pureChecks: every contract marked "pure" is checked by the frame analysis
